@@ -79,3 +79,15 @@ Example C01_real_lexer_example :
   c01r_run (cse true) = [[(false, 1); (false, 3); (false, 5); (true, 0)]; [(false, 1); (true, 0)]]
   /\ c01r_run (cse false) = [[(false, 1); (true, 0); (true, 0); (true, 0)]; [(false, 1); (true, 0)]].
 Proof. vm_compute. split; reflexivity. Qed.
+
+(* The refutation stated against [solo] itself, with the lexer model as tokenizer: for the shared design there are two
+   texts and a schedule under which call 0 does NOT end in the state it reaches alone after the same number of steps. *)
+Theorem C01_shared_refuted_solo :
+  let t1 := [49; 32; 43; 32; 50]%Z in let t2 := [120]%Z in
+  let pin (text : list Z) : rr_pst := (if str_eqb text t1 then 4 else 2, []) in
+  let init : world rr_pst (list (bool * nat)) :=
+      (fresh_cells, fun i => match i with 0 => NotStarted t1 | 1 => NotStarted t2 | _ => Done [] end) in
+  let sched := [0; 0; 1; 1; 1; 0; 0; 0] in
+  snd (run_schedule Lexer.token rr_pst (list (bool * nat)) lexfun_real pin rr_step false init sched) 0
+  <> solo Lexer.token rr_pst (list (bool * nat)) lexfun_real pin rr_step false t1 (count_occ Nat.eq_dec sched 0).
+Proof. intro H. vm_compute in H. discriminate H. Qed.
